@@ -51,7 +51,7 @@ from ..engine.report import AnalysisError, Run
 from ..engine.resolver import ClassInfo, FuncInfo, Program
 from ..engine.util import method_call, nodes_with_call, normal_edge, u
 from ._c11_util import (ALGO, BUCKETS_ATTR, FLAG_ATTR, GROUP_KEY, MATRYOSHKA, REQ_SENDER_ATTR, STORE_ATTR, SUBS_ATTRS,
-                        ActorInterp, Flag, ResolverInterp, Sym, canonical_source, construction_sites, dataclass_fields,
+                        ActorInterp, Flag, ResolverInterp, Sym, arm_group_uses, canonical_source, construction_sites, dataclass_fields,
                         foreign_attr_ref, group_message_classes, is_empty_mapping, is_shift, lin_of, mapping_uses,
                         message_args, opaque_for, reachable_methods, resolve_roles, self_attr_ref,
                         structural_controls, table_choices)
@@ -682,6 +682,7 @@ def check_req(run: Run, prog: Program, roles: Roles) -> None:
     check_bounds_tracker(run, prog, cls, roles)
     check_reports(run, prog, cls, roles)
     check_run(run, prog, cls, roles)
+    check_arm_groups(run, prog, cls, roles)
     check_group_naming(run, prog, cls, roles)
 
 
@@ -707,6 +708,52 @@ def check_run(run: Run, prog: Program, cls: ClassInfo, roles: Roles) -> None:
                   "just sent no longer equals the targets the actors were last told",
                   node=cfg.nodes[up].ast, file=rn.file, path=cfg.describe_path(wit),
                   instance=f"reports follow the recomputation at line {cfg.nodes[up].lineno}")
+
+
+def check_arm_groups(run: Run, prog: Program, cls: ClassInfo, roles: Roles) -> None:
+    """C11.ARM - the group an arm of the event loop recomputes / reports for is that arm's own.  Each pass of the
+    loop handles ONE message (a proposal, a subscription, a distribution result, a timer tick); the request it sends
+    and the reports it sends must be for the group that message names, otherwise the request in force for group A is
+    accompanied by reports for group B and A's reported targets stay what they were.  Decided by reaching
+    definitions: for every call of the recomputing / reporting / calculating method (and of private helpers that
+    hand a parameter on to one) in the loop, every local the group argument is made of - followed backwards through
+    the assignments that reach the call - is bound on every path from the loop header to the call, i.e. on the
+    current iteration.  A local whose reaching definition lies in another arm is the group of an EARLIER message
+    (or unbound)."""
+    uses = arm_group_uses(prog, cls, roles)
+    rn = roles["run"]
+    if not uses:
+        raise AnalysisError(f"{rn.qual}: no call that names a component group to recompute / report for was found")
+    for use in sorted(uses, key=lambda x: (x["fn"].qual, getattr(x["call"], "lineno", 0), x["param"])):
+        fi, flow, call = use["fn"], use["flow"], use["call"]
+        cfg = flow.cfg
+        run.analysed(fi.qual)
+        bad = use["bad"][0] if use["bad"] else None
+        msg, path = "", None
+        if bad is not None:
+            name = bad["name"]
+            lines = sorted({cfg.nodes[d].lineno for d in bad["defs"]})
+            head = cfg.nodes[bad["head"]]
+            chain = " <- ".join([*bad["via"][::-1], name]) if bad["via"] else name
+            path = cfg.describe_path(bad["path"])
+            msg = (f"the component group of this call is made of the local `{name}`"
+                   + (f" (through {chain})" if bad["via"] else "")
+                   + f", which is not bound on the path the current pass of the loop at line {head.lineno} takes to "
+                   f"get here: its only bindings inside the loop are at line(s) {', '.join(map(str, lines))}, in another "
+                   "arm of the loop"
+                   + (", or the value from before the loop" if bad["before"] else "")
+                   + f".  What reaches the call is the group of an EARLIER message (the last one that arm handled) - or "
+                   "nothing, if that arm never ran (unbound name, the actor's loop dies).  With one component group both "
+                   "are the same; with two disjoint groups the request goes out for the group this pass's message names "
+                   f"while {use['callee']} is run for the other one, so the targets reported to the actors of this group "
+                   "stay what they were: the request in force is no longer reported regular + reported operating-point "
+                   "target.  Every arm must take the group from its own message (the proposal's component ids in the "
+                   "proposal arm, the subscription's in the subscription arm, the result's request in the result arm, "
+                   "every tracked group in the timer arm); the same holds for the group handed to the recomputation, "
+                   "to a helper that passes it on, and for a copy made from a stale local")
+        run.check(bad is None, "C11.ARM", fi.qual, call, msg, node=call, file=fi.file, path=path,
+                  instance=f"{fi.qual}: group of {use['callee']}({use['param']}=...) at line "
+                           f"{getattr(call, 'lineno', '?')} is bound on the current pass")
 
 
 def _enclosing_call(fn: ast.AST, n: ast.AST) -> ast.AST:
@@ -1103,6 +1150,9 @@ CONTROLS = [
      "                    else self._set_power_subscriptions\n",
      "                    self._set_power_subscriptions\n                    if set_operating_point\n"
      "                    else self._set_op_power_subscriptions\n", "C11.REQ"),
+    ("reports sent for the group of another arm", "microgrid._power_managing._power_managing_actor",
+     "                await self._send_reports(proposal.component_ids)\n",
+     "                await self._send_reports(component_ids)\n", "C11.ARM"),
 ]
 
 
@@ -1125,6 +1175,10 @@ def check(run: Run, prog: Program, tier: str) -> str:
              "second-computed group by the system bounds shifted by the "
              "first group's current target; _calculate_shifted_bounds shifts both inclusion "
              "bounds alike and passes exclusion bounds through")
+    run.rule("C11.ARM", "in every arm of the event loop the component group that is recomputed / reported for is made of "
+             "locals bound on the current pass of the loop (the arm's own message) - never a local whose reaching "
+             "definition lies in another arm (the group of an earlier message, or unbound); followed through copies and "
+             "through private helpers that hand the group on")
     run.rule("C11.REQ", "requests are built only from that result (no adjustment after the sum); new bounds are "
              "stored before recomputing; regular reports use the op-shifted bounds; every report carries the group's "
              "stored target in every state; a subscription names the same group (component ids, operating-point "
@@ -1133,6 +1187,7 @@ def check(run: Run, prog: Program, tier: str) -> str:
     run.floor("C11.SUM", 30)
     run.floor("C11.SHIFT", 20)
     run.floor("C11.REQ", 6)
+    run.floor("C11.ARM", 2)
     from ..engine.controls import run_controls
 
     # the controls are located by structure in the analysed tree (textual patches as fallback)
